@@ -97,7 +97,9 @@ Outcome(x, buf) == IF ~Representable(x) THEN "err"
                    ELSE IF buf < Size(x) THEN "err"            \* Err(BufferTooSmall)
                    ELSE "ok"
 
-WhyAt(x, buf) == IF ~Representable(x) THEN Why(x) ELSE IF buf < Size(x) THEN "buffer_too_small" ELSE "none"
+(* the reason reported with an "err" case: a buffer shorter than the parts need is "too small" *)
+(* whether or not the parts are representable                                               *)
+WhyAt(x, buf) == IF buf < Size(x) THEN "buffer_too_small" ELSE IF ~Representable(x) THEN Why(x) ELSE "none"
 
 -----------------------------------------------------------------------------
 (* Shapes *)
@@ -172,8 +174,8 @@ Bufs(x) ==
         around(k) == {b \in (n - k)..(n + k) : b >= 0}
     IN  IF ~Representable(x)
         THEN {b \in {n - 1, n, n + 1, n + 4096, 65535, 65536, U16(n), U16(n) + 1} : b >= 0}     \* incl. the truncated length
-        ELSE IF n <= 4096 THEN Special \cup around(K) \cup {n + 4096}
-        ELSE {0, 4, 152} \cup around(IF Thorough THEN 3 ELSE 1) \cup {b \in {n - K, n + K, n + 4096, U16(n + 1)} : b >= 0}
+        ELSE IF n <= 4096 THEN Special \cup around(K) \cup {n + 4096} \cup (IF Thorough THEN 0..n ELSE {})   \* thorough: EVERY shorter length
+        ELSE {0, 4, 152} \cup around(IF Thorough THEN K ELSE 1) \cup {b \in {n - K, n + K, n + 4096, U16(n + 1)} : b >= 0}
 
 Init == \E x \in Cases : \E b \in Bufs(x) : c = [x |-> x, b |-> b]
 Next == FALSE /\ UNCHANGED c
